@@ -1188,6 +1188,41 @@ func (h *dbHarness) checkScan(pos int) {
 		Violation("scan", "full scan with a new iterator differs from the model after %d groups: %s", pos, d)
 	}
 	h.count("check.scan", 1)
+	if h.r.IntN(2) == 0 {
+		// the same, backwards (another path through every level and, with
+		// separated values, another order of value-block and blob fetches)
+		it, err := h.db.NewIter(nil)
+		if err != nil {
+			h.opErr("newiter", err)
+			return
+		}
+		var rev []kvmodel.KV
+		for ok := it.Last(); ok; ok = it.Prev() {
+			v, verr := it.ValueAndErr()
+			if verr != nil {
+				err = verr
+				break
+			}
+			rev = append(rev, kvmodel.KV{K: string(it.Key()), V: string(v)})
+		}
+		if err == nil {
+			err = it.Error()
+		}
+		if cerr := it.Close(); err == nil {
+			err = cerr
+		}
+		if err != nil {
+			h.opErr("scan", err)
+			return
+		}
+		for i, j := 0, len(rev)-1; i < j; i, j = i+1, j-1 {
+			rev[i], rev[j] = rev[j], rev[i]
+		}
+		if d := kvmodel.DiffPoints(h.model.StateAt(pos).Points(), rev); d != "" {
+			Violation("scan", "full reverse scan with a new iterator differs from the model after %d groups: %s", pos, d)
+		}
+		h.count("check.scan_reverse", 1)
+	}
 }
 
 func writeTrace(s *simrt.Sim) {
